@@ -92,6 +92,17 @@ func (n *SourceNode) Run(ctx context.Context) (err error) {
 
 			msgs := make([]*Message, len(recs))
 			for i, r := range recs {
+				if len(r.Position) == 0 {
+					// Acking such a record would store an empty position as the
+					// connector's checkpoint, i.e. a restart would silently re-read
+					// the source from the beginning. Stop the pipeline instead and
+					// leave the record unacknowledged; fatal, because a restart
+					// would read the very same record again (the arch-v2 engine
+					// refuses it with CodeEmptySourcePosition for the same reason).
+					return nil, cerrors.FatalError(cerrors.Errorf(
+						"source connector %s returned a record with an empty position (record %d of %d in the batch): "+
+							"every record must carry a non-empty position", n.Source.ID(), i, len(recs)))
+				}
 				msgs[i] = &Message{Record: r, SourceID: n.Source.ID()}
 			}
 			return msgs, nil
